@@ -257,10 +257,13 @@ def replay_all(runs, capsline):
             idx.append(k)
     if not blocks:
         return []
-    q = subprocess.run([model_exe(), "wrap"], input=("\n".join(blocks) + "\n").encode(), stdout=subprocess.PIPE,
-                       stderr=subprocess.PIPE, timeout=3000)
+    for attempt in range(3):
+        q = subprocess.run([model_exe(), "wrap"], input=("\n".join(blocks) + "\n").encode(), stdout=subprocess.PIPE,
+                           stderr=subprocess.PIPE, timeout=3000)
+        if q.returncode >= 0:
+            break               # a negative code = killed by a signal (memory pressure on the host): not an answer of the model, run it again
     if q.returncode != 0:
-        raise RuntimeError("wrap model driver failed: " + q.stderr.decode()[-400:])
+        raise RuntimeError("wrap model driver failed (rc=%d): %s" % (q.returncode, q.stderr.decode()[-400:]))
     out = q.stdout.decode().split("\n")
     res, cur = [], []
     for l in out:
